@@ -96,15 +96,9 @@ func main() {
 	r := cfg.Rand
 	s := hx.NewStream("embed", "model.RenderTypes model.Render model.RenderCheck model.EmuSpec model.EmuBridge model.EmuBytes", "ecase", "c12_mismatches", "c12_violations_all")
 	s.ShardMax = 25
-	// histories that start on a primary screen already filled with styled text (what a shell
-	// leaves before the application starts): after a resize the emulator's pen is the style of
-	// a re-printed cell (proposed finding resize-pen-leak).  Generated only on request, as long
-	// as the finding is not recorded.
-	withDirty := os.Getenv("C12_DIRTY_PRIMARY") != ""
-	if withDirty {
-		s.Known = "c12_known"
-		s.KnownClass = "resize-pen-leak"
-	}
+	// every third history starts on a primary screen that already holds styled text (what a
+	// shell leaves before the application starts): resize re-prints that screen through the
+	// pen and must give the pen back (fix 63dc3f8, finding resize-pen-leak)
 	nHist, maxRows, maxCols, maxFrames := 160, 4, 9, 6
 	if cfg.Thorough() {
 		nHist, maxRows, maxCols, maxFrames = 4000, 10, 30, 10
@@ -177,10 +171,25 @@ func main() {
 		}
 		fc.WriteHook = feedBytes
 		var pre []byte
-		if withDirty && h%3 == 2 {
-			// (the cursor is sent home: Vaxis' explicit-width probe reads the cursor position
-			// the application started at, see the report)
-			pre = []byte(fmt.Sprintf("\x1b[4%dm%s\x1b[m\x1b[H", 1+r.Intn(6), strings.Repeat("x", rows*cols)))
+		if h%3 == 2 {
+			switch r.Intn(3) {
+			case 0: // the whole screen on a colour, cursor sent home
+				pre = []byte(fmt.Sprintf("\x1b[4%dm%s\x1b[m\x1b[H", 1+r.Intn(6), strings.Repeat("x", rows*cols)))
+			case 1: // coloured, underlined lines of output, then a prompt: the cursor stays behind it
+				var sb strings.Builder
+				for i := 0; i < rows+r.Intn(3); i++ {
+					fmt.Fprintf(&sb, "\x1b[3%d;4%d;4m%s\x1b[m\r\n", 1+r.Intn(6), 1+r.Intn(6), strings.Repeat("y", 1+r.Intn(cols)))
+				}
+				sb.WriteString("\x1b[1m$\x1b[m")
+				pre = []byte(sb.String())
+			default: // the last column of every row in reverse video with a hyperlink
+				var sb strings.Builder
+				for i := 0; i < rows; i++ {
+					fmt.Fprintf(&sb, "\x1b[%d;%dH\x1b[7m\x1b]8;;http://o\x1b\\z\x1b]8;;\x1b\\\x1b[m", i+1, cols)
+				}
+				sb.WriteString("\x1b[H")
+				pre = []byte(sb.String())
+			}
 			feedBytes(pre)
 			emu.Replies()
 		}
@@ -269,7 +278,7 @@ func main() {
 			case x < 5:
 				vx.Refresh()
 				end = "FRefresh"
-			case x < 12 && f > 0:
+			case (x < 12 || (len(pre) > 0 && x < 18)) && f > 0:
 				// a size change: the host window changes size, drawing the emulator into it
 				// resizes the emulator (Draw -> Resize), Vaxis inside sees the new size at its
 				// next Render and writes nothing; the frame after it repaints
@@ -366,7 +375,6 @@ func main() {
 		}
 		js := map[string]interface{}{"rows": rows0, "cols": cols0, "frames": fjson, "caps": got}
 		if len(pre) > 0 {
-			js["class"] = "resize-pen-leak"
 			js["pre"] = string(pre)
 		}
 		if feedProblem != "" {
@@ -378,6 +386,6 @@ func main() {
 		hx.WithTimeout(2*time.Second, host.Close)
 		emu.Close()
 	}
-	cfg.Write("C12", "a real Vaxis started on the real embedded emulator (handshake through the emulator's own replies), random frame histories as in C01 (sizes up to 4x9 quick / 10x30 thorough, wide, zero-width and multi-codepoint graphemes, all colour classes, attributes, underline styles, hyperlinks, cursor), ended by Render, Refresh or a size change (the host window is resized - to 1x1, shrinking below the cursor, growing, random -, drawing the emulator into it resizes the emulator, Vaxis sees the new size and repaints with the next frame); after every frame the emulator's grid and cursor and the cells obtained by drawing the emulator into a host Vaxis are recorded, and for every printed run the clusters and widths the real parser (uniseg) cut it into. non-trivial = more than one frame",
+	cfg.Write("C12", "a real Vaxis started on the real embedded emulator (handshake through the emulator's own replies), every third history over a primary screen that already holds styled text (coloured fill, coloured underlined lines and a prompt, reverse-video hyperlinked last column); random frame histories as in C01 (sizes up to 4x9 quick / 10x30 thorough, wide, zero-width and multi-codepoint graphemes, all colour classes, attributes, underline styles, hyperlinks, cursor), ended by Render, Refresh or a size change (the host window is resized - to 1x1, shrinking below the cursor, growing, random -, drawing the emulator into it resizes the emulator, Vaxis sees the new size and repaints with the next frame); after every frame the emulator's grid and cursor and the cells obtained by drawing the emulator into a host Vaxis are recorded, and for every printed run the clusters and widths the real parser (uniseg) cut it into. non-trivial = more than one frame",
 		[]*hx.Stream{s}, map[string]interface{}{"frames": frames, "resizes": nResize}, direct)
 }
